@@ -47,7 +47,8 @@ Check ==
            LET F == Untwin(e.obs.files)     \* an unfinished .gz next to its original does not count
                S == Stream(F)
            IN
-           /\ Chk(e, "AllClean", AllClean(F))
+           \* (while the cleanup THREAD is at work a .gz may be half written: judged when shutdown() has returned)
+           /\ Chk(e, "AllClean", (cc.bg /\ cc.clean /\ e.ev # "Stop") \/ AllClean(F))
            /\ Chk(e, "NoDuplicate", \A x, y \in 1..Len(S) : x # y => S[x][1] # S[y][1])
            \* no previously written record is lost (cleanup limits aside)
            /\ Chk(e, "NothingEarlierLost", cc.clean \/ e.ev \in {"ExtRemove", "ExtRename"} \/ seenids \subseteq Ids(S))
